@@ -697,3 +697,32 @@ for _nm in ("to_be", "to_le", "rotate_left", "rotate_right"):
     C.setdefault("common_traits::Integer::" + _nm, {})["fork"] = wordop_fork(_nm)
     for _p in ("u64", "u128", "u32", "u16", "u8", "usize"):
         C.setdefault("core::num::<impl %s>::%s" % (_p, _nm), {})["fork"] = wordop_fork(_nm)
+
+
+# checked arithmetic (std docs): Some(result) exactly when the mathematical result fits the type
+def checked_fork(op):
+    def f(w, st, t, args):
+        a, b = w.num.aff(args[0]), w.num.aff(args[1])
+        ty = w.num.ty_of(args[0])
+        wd = w.cfg.width(ty)
+        if a is None or b is None or wd is None or ty in SIGNED:
+            return None
+        res = ("ret", st["ncall"], "checked")
+        r = a + b if op == "add" else a - b
+        s1, s0 = w.fork(st), w.fork(st)
+        some = ("agg", "adt", "std::option::Option", "Some", (("lincomb", ((1, args[0]), (1 if op == "add" else -1, args[1])), 0),), ("0",))
+        none = ("agg", "adt", "std::option::Option", "None", (), ())
+        s1["log"].append(("lin", [le(const(0), r), le(r, const((1 << wd) - 1))]))
+        s0["log"].append(("lin", [le(r, const(-1))] if op == "sub" else [le(const(1 << wd), r)]))
+        out = []
+        if w.state_feasible(s1):
+            out.append({"state": s1, "res": some})
+        if w.state_feasible(s0):
+            out.append({"state": s0, "res": none})
+        return out or None
+    return f
+
+
+for _ty in ("usize", "u64", "u32", "u16", "u8", "u128"):
+    reg("core::num::<impl %s>::checked_sub" % _ty, fork=checked_fork("sub"))
+    reg("core::num::<impl %s>::checked_add" % _ty, fork=checked_fork("add"))
